@@ -135,9 +135,8 @@ def gen_graphs(tier, wd, seed):
         runs = [dict(V=3, EMIN=2, EMAX=3, WSET={3, 4, 6, 8}, WD=4, DSET=set(rnd.sample([1, 2, 3, 4, 5, 6], 3)), EXTV=3, STRIDE=211, OFFSET=rnd.randrange(211)),
                 dict(V=3, EMIN=4, EMAX=4, WSET={4, 6}, WD=4, DSET={rnd.choice([1, 2, 3])}, EXTV=3, STRIDE=499, OFFSET=rnd.randrange(499))]
     else:
-        runs = [dict(V=3, EMIN=2, EMAX=3, WSET={2, 3, 4, 6, 8}, WD=4, DSET={1, 2, 3, 4, 5, 6}, EXTV=4, STRIDE=211, OFFSET=rnd.randrange(211)),
-                dict(V=3, EMIN=4, EMAX=4, WSET={3, 4, 6}, WD=4, DSET={1, 2, 3, 4}, EXTV=3, STRIDE=499, OFFSET=rnd.randrange(499)),
-                dict(V=4, EMIN=5, EMAX=5, WSET={4, 6}, WD=4, DSET={1, 2, 3}, EXTV=2, STRIDE=8009, OFFSET=rnd.randrange(8009))]
+        runs = [dict(V=3, EMIN=2, EMAX=3, WSET={2, 3, 4, 6, 8}, WD=4, DSET={1, 2, 3, 4, 5, 6}, EXTV=4, STRIDE=2111, OFFSET=rnd.randrange(2111)),
+                dict(V=3, EMIN=4, EMAX=4, WSET={3, 4, 6}, WD=4, DSET={1, 2, 3, 4}, EXTV=3, STRIDE=4999, OFFSET=rnd.randrange(4999))]
     st = 0
     # larger random multigraphs first (the recorder takes graphs in file order after its own shuffle of equal-size classes)
     rc = dict(V=5, EMIN=5, EMAX=6, WSET={6, 8, 10, 12}, WD=4, DSET={1, 2, 3}, EXTV=5, NSAMP=120 if tier == "quick" else 1500)
